@@ -59,6 +59,40 @@ let dump (s : store) : string =
   visit root;
   Buffer.contents out
 
+(* certificates for the proved domain check [wf_checkb]: the reachable keys in depth-first
+   preorder (the root first, every other key after a node linking to it) and their heights.
+   Nothing is assumed about them: the checker decides. *)
+let wf_limit = 3000
+let wf_string (s : store) : string =
+  let seen = Hashtbl.create 64 in
+  let order = ref [] in
+  let rec visit (i : n) =
+    let k = int_of_n i in
+    if not (Hashtbl.mem seen k) then begin
+      Hashtbl.add seen k ();
+      order := i :: !order;
+      match sget s i with
+      | None -> ()
+      | Some nd -> List.iter visit nd.nkids
+    end in
+  visit root;
+  let univ = List.rev !order in
+  if List.length univ > wf_limit then "skipped" else begin
+    let ht = Hashtbl.create 64 in
+    let rec height (depth : int) (i : n) : int =
+      let k = int_of_n i in
+      match Hashtbl.find_opt ht k with
+      | Some h -> h
+      | None ->
+        let h = if depth > wf_limit + 1 then 0 else
+            match sget s i with
+            | None -> 0
+            | Some nd -> List.fold_left (fun m x -> max m (1 + height (depth + 1) x)) 0 nd.nkids in
+        Hashtbl.replace ht k h; h in
+    let hl = List.map (fun i -> (i, nat_of_int (height 0 i))) univ in
+    if wf_checkb s root univ hl then "ok" else "BAD"
+  end
+
 let str_res f = function Ok x -> f x | Panic -> "panic" | NoFuel -> "nofuel"
 
 let observe (s2 : store) (maxlen : int) (blank : n) (pats : word list) : string =
@@ -110,7 +144,7 @@ let () =
              let re = match with_fuel (fun f -> gob_encode f s2 root) with
                | Ok b2 -> if b2 = b then "same" else "DIFFERENT"
                | Panic -> "panic" | NoFuel -> "nofuel" in
-             Printf.printf "%s reenc=%s ## dump=%s bytes=%s\n" (observe s2 maxlen !blank !pats) re
+             Printf.printf "wf=%s %s reenc=%s ## dump=%s bytes=%s\n" (wf_string s) (observe s2 maxlen !blank !pats) re
                (clip (dump s2)) (clip (hex_of_bytes b)))
     done
   with End_of_file -> ()
